@@ -118,3 +118,40 @@ def initAssignments (query : Str) (pfx : Char) (m : VarMap) : List (Str × Optio
   (m.filter (·.2.init)).map (fun e => (e.1, some e.2.index))
 
 end Rbql
+
+namespace Rbql
+
+/-! ### `get_variables_map` of the iterators: which passes run, in which order -/
+
+def natStr (n : Nat) : Str := (toString n).toList
+
+/-- `parse_basic_variables` then `parse_array_variables`: `a<n>` and `a[<n>]` bind to column n-1 -/
+def positionalVars (py : Bool) (pfx : Char) (query : Str) (m : VarMap) : VarMap :=
+  let m1 := (basicVarNums py pfx 0 0 query).foldl (fun acc n => acc.set (pfx :: natStr n) { init := true, index := n - 1 }) m
+  (arrayVarNums pfx 0 0 query).foldl (fun acc n => acc.set ([pfx, '['] ++ natStr n ++ [']']) { init := true, index := n - 1 }) m1
+
+inductive TableVarErr
+  | widthMismatch                    -- 'List of column names and table records have different lengths'
+  | var (e : VarErr)
+  deriving DecidableEq, Repr
+
+/-- `TableIterator.get_variables_map` / `DataframeIterator.get_variables_map`: the positional passes FIRST, then — when the table has
+column names — either the dictionary + attribute passes (normalised names) or the direct pass; a later pass overwrites an earlier one,
+so in direct mode a column NAMED like a positional variable is that column. `firstWidth` = width of the first record, if any. -/
+def tableVariablesMap (js : Bool) (query : Str) (pfx : Char) (names : Option (List Str)) (normalize : Bool) (firstWidth : Option Nat) :
+    Except TableVarErr VarMap :=
+  let m := positionalVars (!js) pfx query []
+  match names with
+  | none => .ok m
+  | some ns =>
+    if (match firstWidth with | some w => w != ns.length | none => false) then .error .widthMismatch
+    else if normalize then
+      match parseAttributeVariables js query pfx ns (parseDictionaryVariables js query pfx ns m) with
+      | .ok m' => .ok m'
+      | .error e => .error (.var e)
+    else
+      match mapVariablesDirectly query ns m with
+      | .ok m' => .ok m'
+      | .error e => .error (.var e)
+
+end Rbql
